@@ -88,9 +88,32 @@ def run(ctx: Ctx, tier: str) -> Result:
         else:
             res.fail(Finding("C02.FRAME", pf.qname, "%s=%s" % (k, got), pf.loc(sf[0]),
                              "StackFrame.%s is fed from %s, not from the designated attribute of the frame being processed" % (k, [x[:120] for x in got])))
+    # the class is named exactly when the frame has a `self`
+    cn_st = [n for n in t.nodes_in(pf, ast.Assign) if isinstance(n.targets[0], ast.Name) and n.targets[0].id == "class_name"
+             and not (isinstance(n.value, ast.Constant) and n.value.value is None)]
+    cn_ret = []
+    for n in cn_st:
+        cs_ = [(ctx.expand.expand(c, pf), pol) for c, pol in paths.enclosing_conditions(p, n, pf)]
+        want_ = "%s.f_locals.get('self', None) is not None" % F
+        want2_ = "%s.f_locals.get('self') is not None" % F
+        if len(cs_) == 1 and cs_[0][1] and cs_[0][0] and cs_[0][0][0] in (want_, want2_):
+            res.ok("C02.FRAME", {"class named when the frame has a self": pf.loc(n)})
+        elif isinstance(n.value, ast.IfExp) or not cs_:
+            pass            # conditional expression / helper forms are covered by the value expectation above
+        else:
+            res.fail(Finding("C02.FRAME", pf.qname, n, pf.loc(n), "the class name is set when %s, not exactly when the frame has a `self`" % [(x[0][:1], x[1]) for x in cs_]))
     # variables only when asked and within the time budget; collector uses this action's limits
     vproc = [c for c in t.calls_in(pf) if any(x.name == "process_variable" for x in t.resolve_call(c, pf).repo)]
-    if len(vproc) == 1 and any(pol and pf.params[4] in norm(c) for c, pol in paths.conditions(p, vproc[0], pf)):
+    def requires(test, pol, name):
+        """test (with polarity) holding implies `name` is true"""
+        if isinstance(test, ast.Name):
+            return pol and test.id == name
+        if isinstance(test, ast.BoolOp) and isinstance(test.op, ast.And) and pol:
+            return any(requires(v, True, name) for v in test.values)
+        if isinstance(test, ast.UnaryOp) and isinstance(test.op, ast.Not):
+            return requires(test.operand, not pol, name) if not pol else False
+        return False
+    if len(vproc) == 1 and any(requires(c, pol, pf.params[4]) for c, pol in paths.conditions(p, vproc[0], pf)):
         res.ok("C02.FRAME", {"variables collected only when requested": True})
     else:
         res.fail(Finding("C02.FRAME", pf.qname, vproc[0] if vproc else "<process_variable>", pf.loc(), "frame variables are not collected exactly when the caller asks for them"))
